@@ -6,6 +6,7 @@
   where goroutines, timers, listening addresses and the allocator are observed after Close).
 -/
 import Model.CoreClose
+import Model.Handshaker
 import Model.Proto.ReqClose
 import Model.Proto.RepClose
 import Model.Proto.CommonLemmas
@@ -469,5 +470,55 @@ theorem rep_closectx_clears (s : Rep.State) (c : Nat) :
   Rep.closeCtx_clears s c
 
 example : Req.Reach Req.init ∧ Req.init.closed = false := ⟨.init, rfl⟩
+
+/-! ### The connection handshaker of the stream transports (tcp, tls+tcp, ipc) -/
+
+/-- *Whatever was in progress at the time.*  In every state the handshaker can reach — any order of connections
+    arriving, handshakes completing or failing, Wait calls and Close, including connections that arrive after Close —
+    a closed handshaker holds nothing open: every connection it was ever given has either been handed to a caller of
+    Wait or has been closed. -/
+theorem closed_handshaker_holds_nothing_open (s : Handshaker.State) (hr : Handshaker.Reach s) (hc : s.closed = true) :
+    ∀ c ∈ s.started, c ∈ s.handed ∨ c ∈ s.shut := by
+  intro c hcs
+  have inv := Handshaker.reach_inv s hr
+  rcases inv.accounted c hcs with h | h | h | h
+  · exact Or.inr (inv.closedShut hc c (Or.inl h))
+  · exact Or.inr (inv.closedShut hc c (Or.inr h))
+  · exact Or.inl h
+  · exact Or.inr h
+
+/-- … and nobody is left waiting on it -/
+theorem closed_handshaker_has_no_waiters (s : Handshaker.State) (hr : Handshaker.Reach s) (hc : s.closed = true) :
+    s.waiters = [] := (Handshaker.reach_inv s hr).noWaiters hc
+
+/-- Close is for good, and a Wait on a closed handshaker returns at once with the closed error -/
+theorem handshaker_close_is_final (s : Handshaker.State) (hc : s.closed = true) (o : Handshaker.Op) :
+    (Handshaker.step s o).1.closed = true := by
+  cases o with
+  | start c => simp only [Handshaker.step]; split; exact hc; simp [hc]
+  | finish c ok =>
+    simp only [Handshaker.step]
+    split
+    · exact hc
+    · split
+      · rw [Handshaker.pump_closed]; exact hc
+      · simp [hc]
+  | wait call => simp [Handshaker.step, hc]
+  | close => simp [Handshaker.step]
+
+theorem handshaker_wait_after_close (s : Handshaker.State) (hc : s.closed = true) (call : Nat) :
+    Handshaker.step s (.wait call) = (s, [s!"ret:{call}:closed"]) := by
+  simp [Handshaker.step, hc]
+
+/-- what Wait hands out is a connection the handshaker has not closed (in particular never one whose handshake
+    failed), and never the same connection twice -/
+theorem handshaker_hands_out_live_connections_once (s : Handshaker.State) (hr : Handshaker.Reach s) :
+    s.handed.Nodup ∧ ∀ c ∈ s.handed, c ∉ s.shut :=
+  ⟨(Handshaker.reach_inv s hr).handedNodup, (Handshaker.reach_inv s hr).handedOpen⟩
+
+/-- non-vacuity: one connection handed out, one failed, one still shaking hands at Close, one arriving after Close -/
+example :
+    let s := Handshaker.run Handshaker.init [.start 1, .start 2, .start 3, .finish 1 true, .wait 7, .finish 2 false, .close, .start 4]
+    s.closed = true ∧ s.started = [1, 2, 3, 4] ∧ s.handed = [1] ∧ s.shut = [2, 3, 4] := by decide
 
 end Props.C10
